@@ -78,10 +78,18 @@ func refHeader(v *refVariant, n int) []byte {
 // formed and returns the compact length prefixes it met and whether a byte
 // string declares a giant length (see giantDecl).
 func refNodeScan(in []byte) (comp []compactPos, giant bool) {
-	return refNodeScanDepth(in, 0)
+	comp, giant, _ = refNodeScanDepth(in, 0)
+	return
 }
 
-func refNodeScanDepth(in []byte, depth int) (comp []compactPos, giant bool) {
+// refNodeDeclShort: a SCALE byte string of the node (storage value, child
+// reference, also inside an inlined child) declares more bytes than follow.
+func refNodeDeclShort(in []byte) bool {
+	_, _, d := refNodeScanDepth(in, 0)
+	return d
+}
+
+func refNodeScanDepth(in []byte, depth int) (comp []compactPos, giant, declShort bool) {
 	if len(in) == 0 || depth > 4 {
 		return
 	}
@@ -138,11 +146,11 @@ func refNodeScanDepth(in []byte, depth int) (comp []compactPos, giant bool) {
 			if p < len(in) {
 				copy(sub, in[p:])
 			}
-			if _, g := refNodeScanDepth(sub, depth+1); g {
-				giant = true
-			}
+			_, g, d := refNodeScanDepth(sub, depth+1)
+			giant, declShort = giant || g, declShort || d
 		}
 		if uint64(len(in)-p) < l {
+			declShort = true
 			return false
 		}
 		p += int(l)
@@ -543,7 +551,12 @@ func (c *ctx) checkTrie(m mutant) bool {
 			continue
 		}
 		if excess > 0 {
-			c.report("alloc", "alloc-exceeds-linear-bound:"+d.name, "%s: %s %s: input %s (%d bytes): decoding allocated %d bytes, bound 64*len+128KiB = %d (err=%v)",
+			cls := "alloc-exceeds-linear-bound:" + d.name
+			if refNodeDeclShort(m.data) {
+				// K2: storage value / child reference decoded by pkg/scale decodeBytes
+				cls = "alloc-byte-string-declared-length-preallocated:" + d.name
+			}
+			c.report("alloc", cls, "%s: %s %s: input %s (%d bytes): decoding allocated %d bytes, bound 64*len+128KiB = %d (err=%v)",
 				d.name, m.kind, m.detail, hx(m.data), len(m.data), exact, 64*len(m.data)+allocFloor, err)
 		}
 		_ = reads
